@@ -1,0 +1,58 @@
+//go:build verif
+
+// Contracts for package envelope, checked by /verif (bfvc). Comment-only.
+package envelope
+
+// ---- C17: a configuration that sealing accepts can be opened by its recipients ----
+// sumsc(g, n): shares the first n grant configurations ask for (a count of 0 means 1).
+//@ spec fun rec sumsc(g []*EnvelopeGrantConfig, n int) int = ite(n <= 0, 0, sumsc(g, n-1) + ite(g[n-1] == nil || g[n-1].ShareCount == 0, 1, g[n-1].ShareCount))
+// reach(g, n, L): of L shares dealt out to the grants in order (grant k receives the shares numbered
+// min(sumsc(g,k), L) .. min(sumsc(g,k+1), L) - 1), the number that land in one of the first n grants
+// that names at least one recipient key - the shares some recipient can decrypt.
+//@ spec fun rec reach(g []*EnvelopeGrantConfig, n int, L int) int = ite(n <= 0, 0, reach(g, n-1, L) + ite(g[n-1] != nil && len(g[n-1].KeypairIndexes) > 0, min(sumsc(g, n), L) - min(sumsc(g, n-1), L), 0))
+
+// The configuration as it was on entry, as mathematical functions (BuildEnvelope never writes it):
+// gcAt(g, k) = g[k]; nkp(g, k) = number of recipient keys grant k names; kpAt(g, k, m) = the m-th.
+//@ spec fun rec gcAt(g []*EnvelopeGrantConfig, k int) *EnvelopeGrantConfig = g[k]
+//@ spec fun rec nkp(g []*EnvelopeGrantConfig, k int) int = len(g[k].KeypairIndexes)
+//@ spec fun rec kpAt(g []*EnvelopeGrantConfig, k int, m int) int = g[k].KeypairIndexes[m]
+
+//@ func BuildEnvelope
+//@   noframe
+//@   requires forall i int trigger keypairs[i] :: 0 <= i && i < len(keypairs) ==> pubKeyOK(keypairs[i])
+// validation loop: the running total is the spec sum; every grant seen names a recipient key, so
+// whatever number L of shares is dealt out, all of the first min(sum, L) land in an openable grant
+//@   loop 1 invariant -1 <= rangeindex && rangeindex < len(grants) && grantShares == sumsc(grants, rangeindex + 1) && grantShares <= 4294967295
+//@   loop 1 invariant forall L int trigger reach(grants, rangeindex + 1, L) :: L >= 0 ==> reach(grants, rangeindex + 1, L) == min(sumsc(grants, rangeindex + 1), L)
+//@   loop 1 invariant forall k int trigger gcAt(grants, k) :: 0 <= k && k <= rangeindex ==> gcAt(grants, k) != nil && nkp(grants, k) > 0
+//@   loop 1 invariant forall k int, m int trigger kpAt(grants, k, m) :: 0 <= k && k <= rangeindex && 0 <= m && m < nkp(grants, k) ==> kpAt(grants, k, m) < len(keypairs)
+//@   loop 2 invariant -1 <= rangeindex && forall m int trigger gc.KeypairIndexes[m] :: 0 <= m && m <= rangeindex ==> gc.KeypairIndexes[m] < len(keypairs)
+// placement loops: after the first k grants, min(sumsc(k), number of shares) shares have been handed
+// out, each exactly once and in order; grant k holds the next min(..k+1..) - min(..k..) of them
+//@   loop 3 invariant -1 <= rangeindex && rangeindex < len(grants) && 0 <= shareIdx && shareIdx == min(sumsc(grants, rangeindex + 1), len(shares))
+//@   loop 3 invariant forall k int trigger envGrants[k] :: 0 <= k && k <= rangeindex ==> envGrants[k] != nil && len(envGrants[k].Ciphertexts) == nkp(grants, k) && len(envGrants[k].KeypairIndexes) == nkp(grants, k)
+//@   loop 4 invariant 0 <= j && j <= sc && 0 <= shareIdx && shareIdx <= len(shares)
+//@   loop 4 invariant shareIdx == min(sumsc(grants, gi), len(shares)) + j
+//@   loop 4 invariant inner != nil && len(inner.Shares) == j
+//@   loop 5 invariant -1 <= rangeindex && rangeindex < len(kpIndexes) && len(ciphertexts) == len(kpIndexes)
+//@   loop 5 invariant len(kpIndexes) == nkp(grants, gi)
+//@   loop 5 invariant forall m int trigger kpIndexes[m] :: 0 <= m && m < len(kpIndexes) ==> kpIndexes[m] == kpAt(grants, gi, m)
+//@   assert at call MarshalVT: len(recv.Shares) == min(sumsc(grants, gi + 1), len(shares)) - min(sumsc(grants, gi), len(shares))
+// accepted ==> the recipients together reach threshold+1 of the shares that were created
+//@   ensures ret1 == nil ==> reach(old(config.GrantConfigs), len(old(config.GrantConfigs)), atcall(Share, arg0)) >= old(config.Threshold) + 1
+//@   assert at call Share: true
+// shape of the result: one sealed grant per configured grant, one ciphertext per recipient key of it
+//@   ensures ret1 == nil ==> ret0 != nil && ret0.Threshold == old(config.Threshold) && len(ret0.Keypairs) == len(keypairs) && len(ret0.Grants) == len(old(config.GrantConfigs))
+//@   ensures ret1 == nil ==> forall k int trigger ret0.Grants[k] :: 0 <= k && k < len(ret0.Grants) ==> ret0.Grants[k] != nil && len(ret0.Grants[k].Ciphertexts) == len(ret0.Grants[k].KeypairIndexes) && len(ret0.Grants[k].KeypairIndexes) == nkp(old(config.GrantConfigs), k)
+
+// generated protobuf encoder: writes a buffer of its own
+//@ func (*EnvelopeGrantInner).MarshalVT
+//@   trusted generated code (vtprotobuf): allocates and fills its own buffer
+//@   writes H_uint8
+//@   fresh dAtA
+
+//@ func buildGrantEncContext
+//@ func buildKeyDerivationContext
+//@ func deriveEncKeyFromScalar
+//@ func hashContext
+//@   fresh ret
